@@ -616,8 +616,13 @@ func runC16(c *runCtx) {
 		if res.spec.Probe && res.ended-res.started > 30*time.Second {
 			c.violate("c16.slow_answer", "request %d (%s) was sent while the terminal was busy with a command (its queue full) or another client was not reading its answer; it was answered only after %v (the accept loop may spend 2 s on each surplus request and some 10 s on a client that does not read, not until the command ends or the client wakes up)", i, res.class, res.ended-res.started)
 		}
-		if complete && res.alone && total == 0 && res.spec.Wait && res.spec.PadKB == 0 && res.ended-res.started > 8*time.Second {
-			// (bodies of hundreds of kilobytes take the simulated server a few simulated seconds to read)
+		anyPad := false
+		for k := range plan.HTTP {
+			anyPad = anyPad || plan.HTTP[k].PadKB > 0
+		}
+		if complete && res.alone && total == 0 && res.spec.Wait && !anyPad && res.ended-res.started > 8*time.Second {
+			// (not in sessions with bodies of hundreds of kilobytes: reading them, and then drawing a header
+			// of that size, takes the simulated process simulated seconds)
 			c.violate("c16.slow_answer", "request %d (%s) was sent at once but answered only after %v", i, res.class, res.ended-res.started)
 		}
 	}
